@@ -509,4 +509,171 @@ theorem pure_collectWritesL {cfg : Cfg} (hx : cfg.WritesExact) {env : Env} :
     simp [collectWritesL, pure_collectWrites hx e h.1, pure_collectWritesL hx es h.2]
 end
 
+
+/-! ### soundness of the read analysis (property C13) -/
+
+theorem mem_collectReadsL {cfg : Cfg} {env : Env} {rnd : Bool} {s : Sym} {e : Expr} :
+    ∀ {subs : List Expr}, e ∈ subs → s ∈ collectReads cfg env rnd e → s ∈ collectReadsL cfg env rnd subs := by
+  intro subs
+  induction subs with
+  | nil => intro h; cases h
+  | cons a as ih =>
+    intro h hs
+    simp only [collectReadsL, List.mem_append]
+    rcases List.mem_cons.mp h with rfl | h'
+    · exact Or.inl hs
+    · exact Or.inr (ih h' hs)
+
+theorem mem_funInfo_depends {cfg : Cfg} (hc : cfg.ReadsComplete) {env : Env} {fd : FunDecl} {b : Expr} {s : Sym}
+    (hb : b ∈ exprsOf fd.body) (hs : s ∈ collectReads cfg env cfg.dependsCollectsRandom b) (hnl : s ∉ fd.locals) (hnp : s ∉ fd.params) :
+    s ∈ (funInfo cfg env fd).depends := by
+  obtain ⟨_, hcol, hv, _⟩ := hc
+  have h1 : s ∈ collectStmt cfg.visit (collectReads cfg env cfg.dependsCollectsRandom) fd.body := collectStmt_complete hv hs fd.body hb
+  have h2 : s ∈ (if cfg.collectsDepends = true then collectStmt cfg.visit (collectReads cfg env cfg.dependsCollectsRandom) fd.body else []) := by
+    rw [if_pos hcol]; exact h1
+  show s ∈ (if cfg.erasesParamDepends = true then
+      erase (if cfg.erasesLocalDepends = true then
+        erase (if cfg.collectsDepends = true then collectStmt cfg.visit (collectReads cfg env cfg.dependsCollectsRandom) fd.body else []) fd.locals
+        else (if cfg.collectsDepends = true then collectStmt cfg.visit (collectReads cfg env cfg.dependsCollectsRandom) fd.body else [])) fd.params
+      else (if cfg.erasesLocalDepends = true then
+        erase (if cfg.collectsDepends = true then collectStmt cfg.visit (collectReads cfg env cfg.dependsCollectsRandom) fd.body else []) fd.locals
+        else (if cfg.collectsDepends = true then collectStmt cfg.visit (collectReads cfg env cfg.dependsCollectsRandom) fd.body else [])))
+  exact mem_optErase (mem_optErase h2 hnl) hnp
+
+/-- every symbol an expression may read -- directly or through the bodies of the functions it calls -- is in
+    `collect_possible_reads`, whatever the `collectRandom` flag -/
+theorem reads_sound {cfg : Cfg} (hc : cfg.ReadsComplete) {P : List FunDecl} {env : Env} (hcons : Consistent cfg env P)
+    {e : Expr} {s : Sym} (h : Reads P e s) : ∀ rnd, s ∈ collectReads cfg env rnd e := by
+  induction h with
+  | ident s subs =>
+    intro rnd
+    unfold collectReads
+    simp
+  | sub he _ ih =>
+    intro rnd
+    unfold collectReads
+    simp only [List.mem_append]
+    exact Or.inl (mem_collectReadsL he (ih _))
+  | @callBody x f s fsubs args fd b hfd hname hb _ hnl hnp ih =>
+    intro rnd
+    have hfind : env.find f = some (funInfo cfg env fd) := hname ▸ hcons fd hfd
+    have hmem := mem_funInfo_depends hc hb (ih _) hnl hnp
+    have hne : Kind.kFUN_CALL ≠ Kind.kIDENTIFIER := by decide
+    unfold collectReads
+    simp only [hne, if_false, hc.2.2.2, if_true, getSymbol_ident, hfind, hc.1, List.mem_append]
+    exact Or.inr hmem
+
+theorem symOk_of_isCTC {cfg : Cfg} {env : Env} {tab : SymTab} {e : Expr} (h : isCTC cfg env tab e = true) {s : Sym}
+    (hs : s ∈ collectReads cfg env cfg.ctcCollectsRandom e) : symOk tab s = true := by
+  unfold isCTC at h
+  exact List.all_eq_true.mp h s hs
+
+/-! ### random-number builtins -/
+
+mutual
+theorem random_in_reads {cfg : Cfg} (hp : cfg.readsPropagatesRandom = true) (hi : cfg.randomKinds.contains .kIDENTIFIER = false)
+    (hcall : ∀ k ∈ cfg.randomKinds, cfg.readCallKinds.contains k = false) {env : Env} :
+    ∀ (e : Expr), containsRandom cfg e = true → (0 : Sym) ∈ collectReads cfg env true e
+  | .node k x subs, h => by
+    unfold containsRandom at h
+    unfold collectReads
+    simp only [hp, Bool.and_self, List.mem_append]
+    rcases Bool.or_eq_true_iff.mp h with hk | hsub
+    · right
+      have hne : k ≠ Kind.kIDENTIFIER := by
+        intro he; rw [he] at hk; rw [hk] at hi; cases hi
+      have hkm : k ∈ cfg.randomKinds := List.contains_iff_mem.mp hk
+      have hnc : ¬ k ∈ cfg.readCallKinds := by
+        intro hm
+        have := hcall k hkm
+        rw [List.contains_iff_mem.mpr hm] at this; cases this
+      simp [hne, hnc, hkm]
+    · left
+      exact random_in_readsL hp hi hcall subs hsub
+theorem random_in_readsL {cfg : Cfg} (hp : cfg.readsPropagatesRandom = true) (hi : cfg.randomKinds.contains .kIDENTIFIER = false)
+    (hcall : ∀ k ∈ cfg.randomKinds, cfg.readCallKinds.contains k = false) {env : Env} :
+    ∀ (es : List Expr), containsRandomL cfg es = true → (0 : Sym) ∈ collectReadsL cfg env true es
+  | [], h => by simp [containsRandomL] at h
+  | e :: es, h => by
+    unfold containsRandomL at h
+    simp only [collectReadsL, List.mem_append]
+    rcases Bool.or_eq_true_iff.mp h with h1 | h2
+    · exact Or.inl (random_in_reads hp hi hcall e h1)
+    · exact Or.inr (random_in_readsL hp hi hcall es h2)
+end
+
+
+/-! ### the `restricted` closure -/
+
+theorem mem_initReads {cfg : Cfg} {D : List VarDecl} {d : VarDecl} {s t : Sym} (hd : d ∈ D) (hs : d.sym = s)
+    (ht : t ∈ collectReads cfg [] false d.init) : t ∈ initReads cfg D s := by
+  induction D with
+  | nil => cases hd
+  | cons a as ih =>
+    simp only [initReads, List.mem_append]
+    rcases List.mem_cons.mp hd with rfl | h
+    · left; simp [hs, ht]
+    · right; exact ih h
+
+/-- when the loop ends, the result contains what was collected and what was pending, and is closed under
+    "identifiers read by the initialiser" -/
+theorem closeDeps_closed (cfg : Cfg) (D : List VarDecl) : ∀ (fuel : Nat) (work deps R : List Sym),
+    closeDeps cfg D fuel work deps = some R →
+    (∀ s ∈ deps, ∀ t ∈ initReads cfg D s, t ∈ deps ∨ t ∈ work) →
+    (∀ s ∈ deps, s ∈ R) ∧ (∀ s ∈ work, s ∈ R) ∧ (∀ s ∈ R, ∀ t ∈ initReads cfg D s, t ∈ R)
+  | 0, [], deps, R, h, H => by
+    simp only [closeDeps, Option.some.injEq] at h
+    subst h
+    exact ⟨fun s hs => hs, fun s hs => (by cases hs), fun s hs t ht => (H s hs t ht).elim id (fun h => (by cases h))⟩
+  | 0, _ :: _, _, _, h, _ => by simp [closeDeps] at h
+  | fuel + 1, [], deps, R, h, H => by
+    simp only [closeDeps, Option.some.injEq] at h
+    subst h
+    exact ⟨fun s hs => hs, fun s hs => (by cases hs), fun s hs t ht => (H s hs t ht).elim id (fun h => (by cases h))⟩
+  | fuel + 1, s :: work, deps, R, h, H => by
+    simp only [closeDeps] at h
+    by_cases hc : deps.contains s = true
+    · rw [if_pos hc] at h
+      have hsd : s ∈ deps := List.contains_iff_mem.mp hc
+      have H' : ∀ u ∈ deps, ∀ t ∈ initReads cfg D u, t ∈ deps ∨ t ∈ work := by
+        intro u hu t ht
+        rcases H u hu t ht with h1 | h1
+        · exact Or.inl h1
+        · rcases List.mem_cons.mp h1 with rfl | h2
+          · exact Or.inl hsd
+          · exact Or.inr h2
+      obtain ⟨h1, h2, h3⟩ := closeDeps_closed cfg D fuel work deps R h H'
+      refine ⟨h1, ?_, h3⟩
+      intro u hu
+      rcases List.mem_cons.mp hu with rfl | hu'
+      · exact h1 _ hsd
+      · exact h2 u hu'
+    · rw [if_neg hc] at h
+      have H' : ∀ u ∈ s :: deps, ∀ t ∈ initReads cfg D u, t ∈ s :: deps ∨ t ∈ work ++ initReads cfg D s := by
+        intro u hu t ht
+        rcases List.mem_cons.mp hu with rfl | hu'
+        · exact Or.inr (List.mem_append.mpr (Or.inr ht))
+        · rcases H u hu' t ht with h1 | h1
+          · exact Or.inl (List.mem_cons_of_mem _ h1)
+          · rcases List.mem_cons.mp h1 with rfl | h2
+            · exact Or.inl (List.mem_cons_self ..)
+            · exact Or.inr (List.mem_append.mpr (Or.inl h2))
+      obtain ⟨h1, h2, h3⟩ := closeDeps_closed cfg D fuel (work ++ initReads cfg D s) (s :: deps) R h H'
+      refine ⟨fun u hu => h1 u (List.mem_cons_of_mem _ hu), ?_, h3⟩
+      intro u hu
+      rcases List.mem_cons.mp hu with rfl | hu'
+      · exact h1 _ (List.mem_cons_self ..)
+      · exact h2 u (List.mem_append.mpr (Or.inl hu'))
+
+theorem consistent_nil (cfg : Cfg) : Consistent cfg [] [] := by intro fd h; cases h
+
+/-- everything an array size depends on -- directly or through initialisers -- ends up in `restricted` -/
+theorem builderDep_in_closure {cfg : Cfg} (hc : cfg.ReadsComplete) {D : List VarDecl} {fuel : Nat} {e : Expr} {R : List Sym}
+    (h : collectDependencies cfg D fuel [] e = some R) {p : Sym} (hp : BuilderDep D e p) : p ∈ R := by
+  unfold collectDependencies at h
+  obtain ⟨_, h2, h3⟩ := closeDeps_closed cfg D fuel _ [] R h (fun s hs => by cases hs)
+  induction hp with
+  | direct hr => exact h2 _ (reads_sound hc (consistent_nil cfg) hr false)
+  | viaInit _ hd hs hr ih => exact h3 _ ih _ (mem_initReads hd hs (reads_sound hc (consistent_nil cfg) hr false))
+
 end UtapModel.Effect
